@@ -545,6 +545,20 @@ func fmRoundTrip(c sealCase, text string) string {
 	if m.Frontmatter.Answer != text || m.Frontmatter.SealedAnswer != "" {
 		return fmt.Sprintf("fm-seal: Unseal returned a DIFFERENT answer %q (hex %s); %s", m.Frontmatter.Answer, hex.EncodeToString([]byte(m.Frontmatter.Answer)), desc)
 	}
+	// the round trip holds for every text, also on an object that has sealed and unsealed before:
+	// change the answer, seal again, unseal again
+	for round, text2 := range []string{text + "#2", "z", text} {
+		m.Frontmatter.Answer = text2
+		if err := m.Seal(c.Pub); err != nil {
+			return fmt.Sprintf("fm-seal: re-Seal %d failed: %v; %s", round, err, desc)
+		}
+		if err := m.Unseal(); err != nil {
+			return fmt.Sprintf("fm-seal: Unseal after re-Seal %d failed: %v; %s", round, err, desc)
+		}
+		if m.Frontmatter.Answer != text2 {
+			return fmt.Sprintf("fm-seal: after sealing %q on an object that had been unsealed before, Unseal returned %q; %s", text2, m.Frontmatter.Answer, desc)
+		}
+	}
 	return ""
 }
 
@@ -572,6 +586,18 @@ var valueSets = [][3]string{
 	{"3", "4", "12"},
 	{"ab", "a b", "ba"},
 	{"Evy", "evy", "EVY"},
+}
+
+// progFor returns a program for output class o: classes 0..2 print vals[o] and a newline; class 3
+// prints the question's text (vals[0]) without the final line break.
+func progFor(vals [3]string, o, variant int) string {
+	if o == 3 {
+		if variant%2 == 0 {
+			return "printf \"" + vals[0] + "\"\n"
+		}
+		return "printf \"%v\" \"" + vals[0] + "\"\n"
+	}
+	return textProg(vals[o], variant)
 }
 
 // evy programs printing v, by variant
@@ -624,7 +650,7 @@ func buildQuestion(c verifyCase, dir string, rnd *rand.Rand) (md string, answer 
 	case "textq_evy": // question is an output, choices are programs
 		b.WriteString("```\n" + vals[0] + "\n```\n\nChoose:\n\n")
 		for i := 0; i < c.N; i++ {
-			b.WriteString("- ```evy\n  " + indent(textProg(vals[c.Out[i]], pv+i), "  ") + "\n  ```\n")
+			b.WriteString("- ```evy\n  " + indent(progFor(vals, c.Out[i], pv+i), "  ") + "\n  ```\n")
 		}
 	case "link": // linked evy files
 		if err := write("src/q.evy", textProg(vals[0], pv)); err != nil {
@@ -633,7 +659,7 @@ func buildQuestion(c verifyCase, dir string, rnd *rand.Rand) (md string, answer 
 		b.WriteString("[question](src/q.evy \"evy:text\")\n\nChoose:\n\n")
 		for i := 0; i < c.N; i++ {
 			name := fmt.Sprintf("src/c%d.evy", i)
-			if err := write(name, textProg(vals[c.Out[i]], pv+1+i)); err != nil {
+			if err := write(name, progFor(vals, c.Out[i], pv+1+i)); err != nil {
 				return "", "", err
 			}
 			b.WriteString("- [answer](" + name + " \"evy:source\")\n")
